@@ -63,9 +63,23 @@ pub open spec fn overlap_defined(t: InherentTable, key: InherentImplKey, for_ty:
 pub open spec fn is_taken(t: InherentTable, key: InherentImplKey, for_ty: Ty, n: Seq<char>) -> bool {
     t.methods(key).dom().contains(n) || overlap_defined(t, key, for_ty, n)
 }
-// toplevel::inherent_method_overlaps (a walk over the impl table; trusted to compute exactly this)
+// ---- toplevel::inherent_method_overlaps itself (verified; these are its callees) ----
+#[verifier::external_body] pub fn try_constr_name(t: &Ty) -> (r: Option<String>)
+    ensures r matches Some(c) ==> constr_name_of(*t) == Some(c@), r is None ==> constr_name_of(*t) is None { unimplemented!() }
+// `try_constr_name(ty).as_deref() == Some(constr.as_str())`
+#[verifier::external_body] pub fn constr_is(t: &Ty, c: &String) -> (r: bool) ensures r == (constr_name_of(*t) == Some(c@)) { unimplemented!() }
+impl SchemeMap { #[verifier::external_body] pub fn contains_str(&self, k: &str) -> (r: bool) ensures r == self@.dom().contains(k@) { unimplemented!() } }
+impl InherentTable {
+    // `impls.iter()`: the entries of the table (IndexMap: insertion order) — every key that has a method is among them, each with its methods
+    #[verifier::external_body]
+    pub fn entries_vec(&self) -> (r: Vec<(InherentImplKey, ImplDef)>)
+        ensures forall|i: int| 0 <= i < r@.len() ==> (#[trigger] r@[i]).1.methods@ == self.methods(r@[i].0),
+                forall|k: InherentImplKey, n: Seq<char>| #[trigger] self.methods(k).dom().contains(n) ==> exists|i: int| 0 <= i < r@.len() && (#[trigger] r@[i]).0 == k,
+    { unimplemented!() }
+}
+// the table is keyed by the TEXT of a constructor name (IndexMap<InherentImplKey, _> hashes and compares string contents): assumed
 #[verifier::external_body]
-pub fn inherent_method_overlaps(env: &PackageTypeEnv, key: &InherentImplKey, for_ty: &Ty, method: &str) -> (r: bool)
-    ensures r == overlap_defined(env.cur.trait_env.inherent_impls, *key, *for_ty, method@),
-{ unimplemented!() }
-
+pub proof fn axiom_constr_key_by_text(t: InherentTable, a: InherentImplKey, b: InherentImplKey)
+    requires a matches InherentImplKey::Constr(x) && b matches InherentImplKey::Constr(y) && x@ == y@,
+    ensures t.methods(a) == t.methods(b),
+{ }
